@@ -2,6 +2,7 @@ import WK.Proofs.C37_pool
 import WK.Proofs.C37_wq
 import WK.Proofs.C37_mb
 import WK.Proofs.C37_drain
+import WK.Proofs.C37_wgwindow
 /-
   C37 — Work queues run each accepted task exactly once.
 
